@@ -58,8 +58,16 @@ class SandboxCoverageTracer(SandboxBasicTracer):
         self.pc_covered = None
         self.missing = set()
         self.lines = set()
+        self._depth = 0
+        self._outermost = None
 
     def __enter__(self):
+        # The tracer is re-entered when student code imports another student
+        # file; the measurement that is already running simply continues.
+        self._depth += 1
+        if self._depth > 1:
+            return
+        self._outermost = (self.filename, self.code)
         # Force coverage to accept the code
         self.original = coverage.python.get_python_source
 
@@ -76,6 +84,10 @@ class SandboxCoverageTracer(SandboxBasicTracer):
         self.coverage.start()
 
     def __exit__(self, exc_type, exc_val, traceback):
+        self._depth -= 1
+        if self._depth > 0:
+            return
+        self.filename, self.code = self._outermost
         self.coverage.stop()
         self.coverage.save()
         # Restore the get_python_source reader
